@@ -94,6 +94,15 @@ pub fn selftest(runs: u64) -> i32 {
     for (engine, profile) in [
         ("worldsim", "lifecycle"),
         ("worldsim", "churn"),
+        ("worldsim", "stale"),
+        ("worldsim", "storage"),
+        ("worldsim", "purge"),
+        ("worldsim", "values"),
+        ("worldsim", "lazy"),
+        ("worldsim", "tracked"),
+        ("worldsim", "restricted"),
+        ("worldsim", "parallel"),
+        ("worldsim", "faults"),
     ] {
         let part = p(engine, profile, runs, runs);
         let a = run_part("", &part, runs, DEFAULT_SEED, 16, Duration::from_secs(600), true);
